@@ -32,12 +32,12 @@ type cop struct {
 	// how the failing Write reports itself, and what further Writes of the same call meet: a caller that
 	// retries (it must not lose, repeat or reorder bytes, nor report success) sees wmore[0] bytes accepted by
 	// the next Write before that fails the same way, and so on; after the list every Write succeeds
-	werr  error
-	wmore []int
-	resp     []byte
-	silent   bool          // after resp the peer stays silent (read deadline) instead of EOF
-	delay    time.Duration // resp is delivered after this delay
-	frag     int           // deliver resp in fragments of at most frag bytes
+	werr   error
+	wmore  []int
+	resp   []byte
+	silent bool          // after resp the peer stays silent (read deadline) instead of EOF
+	delay  time.Duration // resp is delivered after this delay
+	frag   int           // deliver resp in fragments of at most frag bytes
 	// W
 	raw []byte
 	// D
@@ -118,8 +118,8 @@ var errFault = errors.New("injected write failure")
 // result class and the calls made on the factory and on the connections, in order.
 func runClientOps(cf ccfg, ops []cop) []copResult {
 	var (
-		mu     sync.Mutex
-		cur    []string
+		mu       sync.Mutex
+		cur      []string
 		tag      = 0
 		budget   = -1
 		more     []int
@@ -347,6 +347,8 @@ var (
 // netFault: a write error of the net.Error family (what a deadline or a full socket buffer produces).
 type netFault struct{ timeout, temporary bool }
 
-func (e netFault) Error() string   { return fmt.Sprintf("fake: write fault (timeout=%v temporary=%v)", e.timeout, e.temporary) }
+func (e netFault) Error() string {
+	return fmt.Sprintf("fake: write fault (timeout=%v temporary=%v)", e.timeout, e.temporary)
+}
 func (e netFault) Timeout() bool   { return e.timeout }
 func (e netFault) Temporary() bool { return e.temporary }
